@@ -183,8 +183,10 @@ func (p *processor) processEvent(event *Event) (isPassed bool, e *Event) {
 		// there is busy action, waiting for next sequential event.
 		event = stream.blockGet()
 		if event.IsTimeoutKind() {
-			// pass timeout directly to plugin which requested next sequential event.
-			event.action = lastAction
+			// pass timeout directly to plugin which requested next sequential event: the first
+			// busy action. lastAction is where the previous event stopped, which is an earlier
+			// action when that action discarded the event.
+			event.action = p.firstBusyAction(lastAction)
 			verifTrace(vtProcTimeoutTo, p, verifID(event.stream), int64(event.action), int64(p.busyActionsTotal), verifBool(event.action >= 0 && event.action < len(p.busyActions) && p.busyActions[event.action]))
 		}
 	}
@@ -245,6 +247,16 @@ func (p *processor) doActions(event *Event) (isPassed bool, lastAction int) {
 
 	// return the last action index as the event has passed all the actions
 	return true, l - 1
+}
+
+// firstBusyAction returns the index of the first busy action, or def when no action is busy.
+func (p *processor) firstBusyAction(def int) int {
+	for i, busy := range p.busyActions {
+		if busy {
+			return i
+		}
+	}
+	return def
 }
 
 func (p *processor) tryMarkBusy(index int) {
